@@ -328,6 +328,18 @@ class BlockBase:
         """Get the square root of all elements in the array."""
         return self._do_unary_op("sqrt")
 
+    def log(self):
+        """Get the natural logarithm of all elements in the array."""
+        return self._do_unary_op("log")
+
+    def log2(self):
+        """Get the base-2 logarithm of all elements in the array."""
+        return self._do_unary_op("log2")
+
+    def log10(self):
+        """Get the base-10 logarithm of all elements in the array."""
+        return self._do_unary_op("log10")
+
     def clip(self, a_min, a_max):
         """Clip the values in the array."""
         new = self.copy()
